@@ -5,9 +5,8 @@ use quote::{format_ident, quote, ToTokens};
 use structmeta::{Flag, NameArgs, NameValue, Parse, StructMeta};
 use syn::{
     ext::IdentExt, parse::Parse, parse2, parse_quote, spanned::Spanned, token, Attribute, Data,
-    DataEnum, DataStruct, DeriveInput, Error, Expr, ExprLit, Field, Fields, GenericParam, Generics,
-    Ident, Index, ItemEnum, ItemStruct, Lit, Meta, Path, Result, TraitBoundModifier, Type,
-    TypeParamBound, Variant, WherePredicate,
+    DataEnum, DataStruct, DeriveInput, Error, Expr, ExprLit, Field, Fields, Ident, Index, ItemEnum,
+    ItemStruct, Lit, Meta, Path, Result, Type, Variant,
 };
 
 use crate::{
@@ -508,14 +507,12 @@ fn build_debug_for_struct(
 
     let mut wcb = WhereClauseBuilder::new(&item.generics);
     let use_bounds = e.push_bounds_to_with(hattrs, kind, &mut wcb);
-    // The last field of a struct may be unsized (`T: ?Sized`, `str`, `[T]`, `dyn Trait`): `&self.x`
-    // cannot be coerced to `&dyn Debug` then, `&&self.x` can (as in the standard derive).
-    let last_may_be_unsized = fields
-        .last()
-        .is_some_and(|field| may_be_unsized(&item.generics, &field.field.ty));
+    // The last field of a struct may be unsized (`T: ?Sized`, `str`, `[T]`, `dyn Trait`, an alias of one
+    // of them): `&self.x` cannot be coerced to `&dyn Debug` then, `&&self.x` can. Whether it is cannot
+    // be told from its tokens, so the last field is always passed that way, as in the standard derive.
     let to_expr = |field: &FieldEntry| {
         let member = field.member();
-        if last_may_be_unsized && field.index + 1 == fields.len() {
+        if field.index + 1 == fields.len() {
             quote!(&&self.#member)
         } else {
             quote!(&self.#member)
@@ -537,25 +534,6 @@ fn build_debug_for_struct(
                 #expr
             }
         }
-    })
-}
-fn may_be_unsized(generics: &Generics, ty: &Type) -> bool {
-    fn is_maybe_sized(bound: &TypeParamBound) -> bool {
-        matches!(bound, TypeParamBound::Trait(t) if matches!(t.modifier, TraitBoundModifier::Maybe(_)))
-    }
-    match ty {
-        Type::Slice(_) | Type::TraitObject(_) => return true,
-        Type::Path(p) if p.qself.is_none() && p.path.is_ident("str") => return true,
-        _ => {}
-    }
-    generics.params.iter().any(|p| match p {
-        GenericParam::Type(t) => t.bounds.iter().any(is_maybe_sized),
-        _ => false,
-    }) || generics.where_clause.iter().any(|w| {
-        w.predicates.iter().any(|p| match p {
-            WherePredicate::Type(t) => t.bounds.iter().any(is_maybe_sized),
-            _ => false,
-        })
     })
 }
 fn build_debug_for_enum(
